@@ -25,6 +25,11 @@ func (interp *Interpreter) SingleStepInvoke(pc ProgramCounter) (ExitReason, Prog
 func (interp *Interpreter) SingleStepStateTransition(pc ProgramCounter) (ExitReason, ProgramCounter) {
 	// check program-counter exceed blob length
 	if int(pc) >= len(interp.Program.InstructionData) {
+		// (GP A.2) beyond its end the code reads as zeros, i.e. trap, charged like any instruction
+		if interp.Gas < 1 {
+			return ExitOOG, pc
+		}
+		interp.Gas -= 1
 		return ExitPanic, pc
 	}
 
@@ -82,6 +87,12 @@ func (interp *Interpreter) SingleStepInvokeDecodedBlocks(pc ProgramCounter) (Exi
 
 	for {
 		if int(pc) >= n {
+			// (GP A.2) beyond its end the code reads as zeros, i.e. trap: falling off the end executes
+			// that trap, which is charged (and can run out of gas) like any other instruction
+			if interp.Gas < 1 {
+				return ExitOOG, pc
+			}
+			interp.Gas -= 1
 			return ExitPanic, 0
 		}
 
